@@ -68,7 +68,9 @@ def run(ctx):
     nl = 0
     # the argument of `list` is `[matcher] [~ N]`: decided by folding the (pure string) terms of list_command for each shape of argument
     from ..peval import fold, Unfoldable
-    SHAPES = [('', None, None), ('wl_surface', 'wl_surface', None), ('wl_surface ~ 3', 'wl_surface ', 3), ('~3', None, 3), ('a~2~3', 'a', None), ('x ~ 12', 'x ', 12)]
+    SHAPES = [('', None, None), ('wl_surface', 'wl_surface', None), ('wl_surface ~ 3', 'wl_surface ', 3), ('~3', None, 3), ('a~2~3', 'a', None), ('x ~ 12', 'x ', 12),
+              # a matcher may itself start with a connection prefix (`A: .commit, B: .damage` lists from both): the whole text is the matcher
+              ('A: .commit, B: .damage', 'A: .commit, B: .damage', None), ('A: wl_surface ~ 2', 'A: wl_surface ', 2)]
     for sample, want_m, want_cap in SHAPES:
         hits = 0
         for p in paths_for_input(lpaths, {'arg': sample}):
